@@ -1574,8 +1574,10 @@ func (b *builder) switchStmt(fn *Function, s *ast.SwitchStmt, label *lblock) {
 		b.stmt(fn, s.Init)
 	}
 
-	entry := fn.currentBlock
 	tag := b.expr(fn, s.Tag)
+	// The tag expression may contain control flow of its own (&&, ||); the
+	// switch belongs at the end of the block in which its evaluation ends.
+	entry := fn.currentBlock
 
 	heads := make([]*BasicBlock, 0, len(s.Body.List))
 	bodies := make([]*BasicBlock, len(s.Body.List))
